@@ -350,6 +350,11 @@ def run(ctx):
     r6.floor(8)
     job_descriptors(ctx, r6)
 
+    # ---- R8 guarded-by -----------------------------------------------------------------------
+    r8 = ctx.rule('R8', 'in-memory job structures are accessed only under '
+                  'the scheduler condition lock', 'lock discipline')
+    guarded_fields(ctx, r8)
+
     # ---- R7 pending jobs by key -----------------------------------------------------------------
     r7 = ctx.rule('R7', 'has_scheduled_jobs reports jobs with that key that '
                   'are not being processed', 'GD')
@@ -381,3 +386,33 @@ def run(ctx):
              ctx.construct(hs, extra='store filter'),
              'store query does not translate processing into captured_at '
              'neq/eq None', ctx.loc(hs))
+
+
+def guarded_fields(ctx, rule):
+    """Guarded-by: the in-memory job structures of DefaultScheduler are
+    touched only while holding self._cond (outside __init__)."""
+    prog = ctx.prog
+    fields = {'_heap', 'in_memory_jobs', '_seq'}
+    n = 0
+    for m in prog.methods_of(DS):
+        if m.name == '__init__':
+            continue
+        cfg = ctx.cfg(m)
+        for x in cfg.nodes:
+            acc = [y for y in cfg.own_nodes(x)
+                   if isinstance(y, ast.Attribute) and y.attr in fields and
+                   dotted(y.value) == 'self']
+            if not acc:
+                continue
+            n += 1
+            held = any('self._cond' in norm(w.ast.items[0].context_expr)
+                       for w in cfg.enclosing_withs(x)) or (
+                x.kind == 'with' and
+                'self._cond' in norm(x.ast.items[0].context_expr))
+            rule.check(held, ctx.construct(m, acc[0], extra=x.text()[:40]),
+                       'self.%s is accessed without holding self._cond (the '
+                       'dispatcher thread, the pool workers and schedule() '
+                       'callers share it)' % acc[0].attr, ctx.loc(m, acc[0]))
+    if n < 8:
+        raise AnalysisError('C13.R8: only %d accesses to the in-memory job '
+                            'structures found' % n)
